@@ -15,12 +15,12 @@ func init() {
 	zzverif.Register("opset13.H_C06", H_C06)
 }
 
-func zzAct(name string, x float32) float32 {
+func zzAct[E float32 | float64](name string, x E) E {
 	switch name {
 	case "sigmoid":
-		return float32(1 / (1 + math.Exp(float64(-x))))
+		return E(1 / (1 + math.Exp(float64(-x))))
 	case "tanh":
-		return float32(math.Tanh(float64(x)))
+		return E(math.Tanh(float64(x)))
 	case "relu":
 		return zzReluF(x)
 	}
@@ -28,26 +28,26 @@ func zzAct(name string, x float32) float32 {
 }
 
 // zzRnnState is the data of one recurrent problem.
-type zzRnnState struct {
+type zzRnnState[E float32 | float64] struct {
 	op                         string
 	input, hidden, batch, G    int
-	W, R, B, P                 []float32 // B and P may be nil
+	W, R, B, P                 []E // B and P may be nil
 	acts                       []string
 	lbr                        bool
 }
 
 // zzRnnStep advances (h, c) by one time step on input row x (batch x input); ONNX equations.
-func (s *zzRnnState) zzRnnStep(x, h, c []float32) (nh, nc []float32) {
+func (s *zzRnnState[E]) zzRnnStep(x, h, c []E) (nh, nc []E) {
 	H, I := s.hidden, s.input
-	gate := func(g int, b, j int, hv []float32) float32 {
-		var dx float32
+	gate := func(g int, b, j int, hv []E) E {
+		var dx E
 		for l := 0; l < I; l++ {
 			dx += x[b*I+l] * s.W[(g*H+j)*I+l]
 		}
 		if s.B != nil {
 			dx += s.B[g*H+j]
 		}
-		var dh float32
+		var dh E
 		for l := 0; l < H; l++ {
 			dh += hv[b*H+l] * s.R[(g*H+j)*H+l]
 		}
@@ -56,8 +56,8 @@ func (s *zzRnnState) zzRnnStep(x, h, c []float32) (nh, nc []float32) {
 		}
 		return dx + dh
 	}
-	nh = make([]float32, len(h))
-	nc = make([]float32, len(c))
+	nh = make([]E, len(h))
+	nc = make([]E, len(c))
 	for b := 0; b < s.batch; b++ {
 		switch s.op {
 		case "RNN":
@@ -65,29 +65,29 @@ func (s *zzRnnState) zzRnnStep(x, h, c []float32) (nh, nc []float32) {
 				nh[b*H+j] = zzAct(s.acts[0], gate(0, b, j, h))
 			}
 		case "GRU":
-			z := make([]float32, H)
-			r := make([]float32, H)
+			z := make([]E, H)
+			r := make([]E, H)
 			for j := 0; j < H; j++ {
 				z[j] = zzAct(s.acts[0], gate(0, b, j, h))
 				r[j] = zzAct(s.acts[0], gate(1, b, j, h))
 			}
-			rh := make([]float32, len(h))
+			rh := make([]E, len(h))
 			for j := 0; j < H; j++ {
 				rh[b*H+j] = r[j] * h[b*H+j]
 			}
 			for j := 0; j < H; j++ {
-				var ht float32
+				var ht E
 				if !s.lbr {
 					ht = zzAct(s.acts[1], gate(2, b, j, rh))
 				} else {
-					var dx float32
+					var dx E
 					for l := 0; l < I; l++ {
 						dx += x[b*I+l] * s.W[(2*H+j)*I+l]
 					}
 					if s.B != nil {
 						dx += s.B[2*H+j]
 					}
-					var dh float32
+					var dh E
 					for l := 0; l < H; l++ {
 						dh += h[b*H+l] * s.R[(2*H+j)*H+l]
 					}
@@ -127,33 +127,43 @@ func (s *zzRnnState) zzRnnStep(x, h, c []float32) (nh, nc []float32) {
 // case: op; seq, batch, input, hidden; B, H0, C0, P (bools: optional inputs present);
 // activations []string (empty: default); lbr, input_forget (ints, -1 absent); split (0: none, k: split point)
 func H_C06(v *zzverif.T) {
+	if v.Has("dtype") && v.CStr("dtype") == "float64" {
+		c06Run[float64](v, true)
+	} else {
+		c06Run[float32](v, false)
+	}
+}
+
+// c06Run: is64 - the operands are float64; the operators may refuse them (they do: alpha/beta are E),
+// but an answer must be the recurrence's.
+func c06Run[E float32 | float64](v *zzverif.T, is64 bool) {
 	v.Ring()
 	op := v.CStr("op")
 	seq, batch, in, hid := v.CInt("seq"), v.CInt("batch"), v.CInt("input"), v.CInt("hidden")
 	G := map[string]int{"RNN": 1, "GRU": 3, "LSTM": 4}[op]
-	st := &zzRnnState{op: op, input: in, hidden: hid, batch: batch, G: G}
-	xs := zzverif.Syms[float32](v, "x", seq*batch*in)
-	st.W = zzverif.Syms[float32](v, "w", G*hid*in)
-	st.R = zzverif.Syms[float32](v, "r", G*hid*hid)
+	st := &zzRnnState[E]{op: op, input: in, hidden: hid, batch: batch, G: G}
+	xs := zzverif.Syms[E](v, "x", seq*batch*in)
+	st.W = zzverif.Syms[E](v, "w", G*hid*in)
+	st.R = zzverif.Syms[E](v, "r", G*hid*hid)
 	W := zzverif.NewTensor(st.W, []int{1, G * hid, in})
 	R := zzverif.NewTensor(st.R, []int{1, G * hid, hid})
 	var B, H0, C0, P tensor.Tensor
 	if v.CBool("B") {
-		st.B = zzverif.Syms[float32](v, "b", 2*G*hid)
+		st.B = zzverif.Syms[E](v, "b", 2*G*hid)
 		B = zzverif.NewTensor(st.B, []int{1, 2 * G * hid})
 	}
-	h0 := make([]float32, batch*hid)
-	c0 := make([]float32, batch*hid)
+	h0 := make([]E, batch*hid)
+	c0 := make([]E, batch*hid)
 	if v.CBool("H0") {
-		h0 = zzverif.Syms[float32](v, "h", batch*hid)
+		h0 = zzverif.Syms[E](v, "h", batch*hid)
 		H0 = zzverif.NewTensor(h0, []int{1, batch, hid})
 	}
 	if op == "LSTM" && v.CBool("C0") {
-		c0 = zzverif.Syms[float32](v, "c", batch*hid)
+		c0 = zzverif.Syms[E](v, "c", batch*hid)
 		C0 = zzverif.NewTensor(c0, []int{1, batch, hid})
 	}
 	if op == "LSTM" && v.CBool("P") {
-		st.P = zzverif.Syms[float32](v, "p", 3*hid)
+		st.P = zzverif.Syms[E](v, "p", 3*hid)
 		P = zzverif.NewTensor(st.P, []int{1, 3 * hid})
 	}
 	attrs := []*onnx.AttributeProto{zzAttrI("hidden_size", int64(hid))}
@@ -219,8 +229,8 @@ func H_C06(v *zzverif.T) {
 	v.Region("C06.batch-1-and-input-1", batch == 1 && in == 1)
 
 	// reference: the recurrence, step by step
-	hs := make([][]float32, seq+1)
-	cs := make([][]float32, seq+1)
+	hs := make([][]E, seq+1)
+	cs := make([][]E, seq+1)
 	hs[0], cs[0] = h0, c0
 	for t := 0; t < seq; t++ {
 		hs[t+1], cs[t+1] = st.zzRnnStep(xs[t*batch*in:(t+1)*batch*in], hs[t], cs[t])
@@ -234,11 +244,14 @@ func H_C06(v *zzverif.T) {
 			v.Assert("C06.unsupported-activation-is-refused", r.Err != nil)
 			return false
 		}
+		if is64 && r.Err != nil {
+			return false // float64 operands refused: allowed
+		}
 		v.Assert("C06."+tag+"-computed", r.Err == nil && len(r.Outs) == len(outNames))
 		if r.Err != nil || len(r.Outs) != len(outNames) {
 			return false
 		}
-		y := []float32{}
+		y := []E{}
 		for t := t0; t < t1; t++ {
 			y = append(y, hs[t+1]...)
 		}
